@@ -108,6 +108,15 @@ func families(quick bool) []family {
 		fs = append(fs, family{name: "numerical", config: cfg, alpha: nums, maxLen: pick(5, 6), ordered: true,
 			run: func(s []string) (result, []*fail) { return runNumerical(cfg, s) }})
 	}
+	var large []string
+	for _, y := range numLarge {
+		large = append(large, y.s)
+	}
+	for _, cfg := range []string{"keep-large", "nokeep-large"} {
+		cfg := cfg
+		fs = append(fs, family{name: "numerical", config: cfg, alpha: large, maxLen: pick(4, 6), ordered: true,
+			run: func(s []string) (result, []*fail) { return runNumerical(cfg, s) }})
+	}
 	return fs
 }
 
@@ -451,6 +460,7 @@ func main() {
 				pick("4 (counter), 3 (sub-key, table), 4 (accumulator), 5 (numerical)", "5 (counter), 4 (sub-key, table), 5 (accumulator), 6 (numerical)") +
 				" over keys {a,b,''} x sub-keys/rows {absent,x,y,''} x increments {absent,2,-1,0,zz,MaxInt64}" +
 				", numerical symbols " + pick("{0,1,2,-3,2.5,x}", "{0,1,2,-3,2.5,x,1e9,''}") +
+				" and, with keep and no-keep, length 0.." + pick("4", "6") + " over the large-magnitude symbols {1e9+4,1e9+7,1e9+13,1e9+16,1e15,1e15+1,-1e12-3,1} (unit-size spread at huge magnitude, identical huge values by repetition; reference moments computed exactly with rationals; tolerance 1e-9 relative + 1e-12 of the largest |sample|)" +
 				"; each sequence is applied to a fresh object and every public accessor is compared with an independent fold after every prefix; sequences are enumerated as all distinct permutations of every multiset and the accessor states of all permutations are compared (order independence). Trim: every table on grids up to 2x3" + pick("", " and 3x2") + " with cells in {absent," + pick("2,-1", "2,-1,0") +
 				"} (every row/column non-empty), built in 3 different cell orders, x EVERY subset of the grid cells as predicate x {no follow-up sample, one more sample into each grid cell, a new row, a new column}. Splitter: every string up to length " + pick("6", "8") +
 				" over {a,b,':',NUL} x delimiters {NUL,':','::','ab',':a',':::'}. states = distinct canonical accessor states reached (all prefixes are themselves enumerated sequences); transitions = Sample/Trim/Next operations applied to real objects. non-trivial = a sequence of >= 2 samples with >= 1 accepted sample; a Trim with a non-empty selection on a table of >= 2 cells; a splitter input containing the delimiter"
@@ -459,6 +469,7 @@ func main() {
 			return []string{
 				"hash-map iteration order inside the aggregators is chosen by the Go runtime and is not enumerated; Trim cases are executed for three different map population orders and every execution must satisfy the oracle",
 				"after Trim the row/column/grand totals are not compared (the statement does not say whether totals are recomputed); a column whose present cells were all selected but which has an unselected absent cell may stay or go",
+				"numerical moments are compared with |got-want| <= 1e-9*|want| + 1e-12*max|sample| (a stable one-pass algorithm is ~1000x inside this at every magnitude)",
 				"nearest-rank accepts index ceil(p*n)-1 or floor(p*n) (clamped); ties for the mode accept every most-frequent value; the sample standard deviation is only compared for n >= 2, min/max/mean for n >= 1",
 				"increments are applied with Go int64 wrap-around in both the implementation and the reference fold",
 				"accumulator expressions are restricted to sumi, maxi, concatenation, group and column references whose value the reference computes itself; an arithmetic helper applied to a non-integer must give a non-integer text",
